@@ -279,8 +279,11 @@ def sequential_differential(maxsize, typed, keys, length, fail_key=None, style="
                     break
             else:
                 ci, ri = cached.cache_info(), ref.cache_info()
-                if (ci.hits, ci.misses) != (ri.hits, ri.misses) or (
-                        fail_key is None and ci.currsize != ri.currsize):
+                # (with a failing key only the hits are compared: whether a call that raises
+                # counts as a miss is accounting the property does not speak about, and the two
+                # implementations differ there for maxsize=0)
+                if ci.hits != ri.hits or (fail_key is None and (
+                        ci.misses != ri.misses or ci.currsize != ri.currsize)):
                     results["violations"].append(
                         {"keys": [repr(x) for x in ks], "maxsize": maxsize, "typed": typed,
                          "fail_key": repr(fail_key),
